@@ -222,6 +222,56 @@ def overlap_lines(binary, tier, seed):
     return run_scenario(binary, ["overlap", "-tier", tier, "-seed", str(seed)], {"overlap_seed": seed, "overlap_tier": tier})[0]
 
 
+def jswasm_sample_lines(native_lines, prop, tier, seed):
+    """a few whole groups of the recorded derivations / validations (those with Latin-1 letters and signs first: the code
+    points a byte-oriented shortcut is most likely to mishandle) re-executed in the js/wasm build under Node and validated
+    like the rest (seeded change C11j lives only in that build).  PBKDF2 under wasm costs about 120 ms per seed, hence a
+    sample.  Skipped (empty) when Node or go_js_wasm_exec is missing."""
+    jr = jswasm_runner()
+    if jr is None:
+        return []
+    # a group = a maximal run of consecutive events with one group id (ids are reused from family to family)
+    runs, last = [], None
+    for x in native_lines:
+        if '"group"' not in x or '"build"' in x or '"conc":true' in x:
+            last = None
+            continue
+        e = json.loads(x)
+        if e.get("op") in ("ToSeed", "Check") and not e.get("panicked"):
+            key = (e["op"], json.dumps(e["group"]))
+            if key != last:
+                runs.append([])
+                last = key
+            runs[-1].append(e)
+        else:
+            last = None
+    groups = {}
+    for k, evs in enumerate(runs):          # renumbered: unique within the js/wasm unit
+        for e in evs:
+            e["group"] = 900000 + k
+        groups[k] = evs
+    if not groups:
+        return []
+    def latin1(evs):
+        return any(isinstance(u, int) and 0xA0 <= u <= 0xFF for e in evs for f in ("m", "p", "in") for u in (e.get(f) or []))
+    ids = sorted(groups)
+    lat = [g for g in ids if latin1(groups[g])]
+    rng = random.Random(seed * 31 + 7)
+    k = 3 if tier == "quick" else 40
+    pick = rng.sample(lat, min(k, len(lat))) + rng.sample(ids, min(k, len(ids)))
+    unit = [e for g in dict.fromkeys(pick) for e in groups[g]][:(60 if tier == "quick" else 1500)]
+    d = vlib.scratch("verif-js-")
+    path = os.path.join(d, "js_replay.json")
+    json.dump({"unit": unit}, open(path, "w"))
+    lines, _ = run_scenario(jr[0], [jr[1], "replay", "-arg", path], None, timeout=900)
+    out = []
+    for x in lines:
+        e = json.loads(x)
+        e["build"] = "jswasm"
+        out.append(json.dumps(e, separators=(",", ":")) + "\n")
+    return out
+
+
 def gen_recorder(prop, arch32=True, cold=False, concuni=False, batch=False, concheck=False):
     def rec(binary, tier, seed):
         d = vlib.scratch("verif-tr-")
@@ -234,6 +284,7 @@ def gen_recorder(prop, arch32=True, cold=False, concuni=False, batch=False, conc
         if cold:
             lines += cold_start(binary, tier, seed)
         if concuni:
+            lines += jswasm_sample_lines(lines, prop, tier, seed)
             lines += concuni_lines(binary, tier, seed)
         if batch:
             lines += batch_lines(binary, tier, seed)
@@ -272,6 +323,19 @@ def cold_replay(prop):
     def rp(path, binary):
         unit = json.load(open(path))["unit"]
         cut = unit[0] if unit else {}
+        if any(e.get("build") == "jswasm" for e in unit):
+            jr = jswasm_runner()
+            if jr is None:
+                raise Infra("js/wasm replay: node or go_js_wasm_exec not available")
+            d = vlib.scratch("verif-js-")
+            p2 = os.path.join(d, "js_replay.json")
+            json.dump({"unit": [e for e in unit if e.get("op") in ("ToSeed", "Check")]}, open(p2, "w"))
+            lines, _ = run_scenario(jr[0], [jr[1], "replay", "-arg", p2], None, timeout=900)
+            v = vlib.validate(lines, [prop], shards=1)
+            if v.infra:
+                raise Infra("replay trace unusable: %s" % v.infra[:3])
+            mine = [b for b in v.bad if b[1] == prop]
+            return (len(mine) == 0, "re-executed the unit's calls in the js/wasm build under node: %d events, %d failing" % (len(lines), len(mine)))
         if "concuni_seed" in cut:
             tried = 0
             for batch in range(10):
